@@ -223,6 +223,13 @@ CLAIMED = {
          "sampled texts; bounded CFG equivalence of the two grammars by TLC is infeasible at 43 terminals (DESIGN.md).",
          "differential testing of the two parsers with TLC-generated and mutated texts, verdicts compared by a TLC trace spec",
          "DESIGN.md §6 C34"),
+ "C24": ("model_checking",
+         "Gen_G with Filter=tie enumerates the grammars in which left factoring has to choose between equally large prefix groups (HasTie); "
+         "these, repository grammars and the naming catalogue are generated end to end in 5 (16) separate processes each and expanded grammar, "
+         "parser source and user-trait source must be byte-identical.",
+         "process-level nondeterminism (hash seeds) only; same binary, same options; library API instead of the parol binary.",
+         "TLC-enumerated tie grammars (the inputs on which the outcome could depend on iteration order) run in M processes and compared",
+         "DESIGN.md §6 C24"),
 }
 
 NOT_YET = "check not built yet in this round (see DESIGN.md §11.2 build order); will be claimed once its quick check passes on the unchanged tree"
